@@ -254,6 +254,10 @@ class Scheduler:
             if timed:
                 dl = min(t.deadline for t in timed)
                 if dl > self.now:
+                    # nothing can happen until a timer fires: an observation point for monitors
+                    # (everything that was woken has run)
+                    if getattr(self, "on_clock_advance", None) is not None:
+                        self.on_clock_advance(self)
                     self.now = dl
                 for t in timed:
                     if t.deadline <= self.now:
